@@ -32,5 +32,8 @@ open Lungo.C14
 #print axioms Lungo.C14.inclusion_result_toplevel
 #print axioms Lungo.C14.newKeys_is_dedup
 #print axioms Lungo.C14.stored_value_toplevel
-#print axioms Lungo.C14.inclusion_values_are_stored_partial
+#print axioms Lungo.C14.inclusion_toplevel_values
+#print axioms Lungo.C14.inclusion_values_are_stored
+#print axioms Lungo.C14.subdocument_unfold
+#print axioms Lungo.C14.put_stored_value_keeps_projection
 #print axioms Lungo.C14.project_deterministic_order
